@@ -112,4 +112,250 @@ theorem moveTo_hist {s s1 s' : State} (hl : Mem.LiveOK cfg s) {blk : Block} {L :
       exact ⟨p.found v rfl, ⟨j, hcur2.trans hj⟩, out.live.removeBlock _, fun _ => out.placed,
         fun x hx => out.disj x (mem_filter_sub hx)⟩
 
+/-- `grow` seen from the live-block world, all paths -/
+theorem grow_hist (hc : CfgOK cfg) {s : State} (h : GeomInv cfg s) (hr : RespsOK cfg s) (hd : ChunksDisjoint s)
+    (hf : RespsFresh s) (hl : Mem.LiveOK cfg s) {blk : Block} (hb : blk ∈ s.live) {newL : Layout} (hL : newL.Valid)
+    (hbc : isLast cfg s blk.addr blk.size = true → BlockInCur cfg s blk.addr blk.size)
+    {s' : State} {r : Except AErr Nat} (he : grow cfg s blk.addr blk.size newL = .ok (s', r)) :
+    GrowPost cfg s s' blk newL r := by
+  unfold grow at he
+  obtain ⟨_, hassert, he⟩ := bind_eq_ok he
+  have hsz : blk.size ≤ newL.size := by
+    have := liftM_eq_ok hassert
+    unfold Rs.assert at this
+    split at this
+    · simpa using ‹decide (newL.size ≥ blk.size) = true›
+    · cases this
+  simp only at he
+  have hslow : ∀ {s' r}, (inAnotherChunk cfg Kind.alloc s newL Hints.custom >>= fun x =>
+      match x with
+      | (s1, r1) => (match (s1, Except.map (fun x => x.fst) r1) with
+        | (s', Except.error e) => (pure (s', Except.error e) : R (State × Except AErr Nat))
+        | (s', Except.ok np) => do
+          let s'' ← copyBytes cfg s' blk.addr np blk.size true
+          pure (s'', Except.ok np))) = .ok (s', r) → GrowPost cfg s s' blk newL r := by
+    intro s' r he
+    obtain ⟨⟨s1, r1⟩, h1, h2⟩ := bind_eq_ok he
+    have p := inAnotherChunk_post hc h hr hd hf .alloc hL (custom_truthful newL) (fun hx => by cases hx) h1
+    exact moveTo_hist hl p rfl h2
+  have halloc : ∀ {s' r}, (alloc cfg s newL >>= fun x =>
+      (match x with
+        | (s', Except.error e) => (pure (s', Except.error e) : R (State × Except AErr Nat))
+        | (s', Except.ok np) => do
+          let s'' ← copyBytes cfg s' blk.addr np blk.size true
+          pure (s'', Except.ok np))) = .ok (s', r) → GrowPost cfg s s' blk newL r := by
+    intro s' r he
+    obtain ⟨⟨s1, r1⟩, h1, h2⟩ := bind_eq_ok he
+    obtain ⟨r', hr', p⟩ := alloc_post hc h hr hd hf hL h1
+    exact moveTo_hist hl p hr' h2
+  split at he
+  · -- upwards
+    rename_i hup
+    split at he
+    · rename_i hcond
+      simp only [Bool.and_eq_true] at hcond
+      split at he
+      · cases he
+      · rename_i c hcc
+        obtain ⟨i, hcur, hi⟩ := curChunk?_eq_some hcc
+        have hw := h.chunks i c hi
+        obtain ⟨rem, h1, he⟩ := bind_eq_ok he
+        split at he
+        · rename_i hle
+          obtain ⟨t, h2, he⟩ := bind_eq_ok he
+          obtain ⟨np, h3, he⟩ := bind_eq_ok he
+          cases he
+          have h1' := liftM_eq_ok h1
+          have h2' := liftM_eq_ok h2
+          have h3' := liftM_eq_ok h3
+          unfold Rs.sub at h1'
+          split at h1'
+          · cases h1'
+            unfold Rs.add at h2'
+            split at h2'
+            · cases h2'
+              obtain ⟨j, c2, hcur2, hi2, hb1, hb2, hb3⟩ := hbc hcond.1
+              rw [hcur] at hcur2; cases hcur2
+              rw [hi] at hi2; cases hi2
+              have hend := hw.end_lt64
+              have h16 := hw.end16 hc
+              have hm := h.minAlign
+              have hmle := hm.le
+              rw [up_align_usize_unchecked_eq hm.p2 hm.lt64 (by rw [two_pow_64] at hend ⊢; omega)] at h3'
+              cases h3'
+              have hup1 : blk.addr + newL.size ≤ Spec.upAlign (blk.addr + newL.size) s.minAlign := le_upAlign _ hm.pos
+              have hup2 : Spec.upAlign (blk.addr + newL.size) s.minAlign ≤ c.contentEnd cfg :=
+                upAlign_le_of_dvd hm.pos (hm.dvd_of_16 h16) (by omega)
+              have hpos := isLast_pos hcond.1 hcur hi
+              obtain ⟨k1, k2, k3⟩ := liveOK_regrow (p := blk.addr) (size := newL.size)
+                (np := Spec.upAlign (blk.addr + newL.size) s.minAlign) hl ((disjoint_iff s).mp hd) hb hcur hi hpos
+                (by simp only [hup, ↓reduceIte]; omega)
+              refine ⟨Stable.setCurPos _ _, Or.inl (setCurPos_cur _ _), ?_, (fun e he' => by cases he'), ?_⟩
+              · intro hu
+                rw [setCurPos_cur, hcur] at hu; cases hu
+              · intro np hnp
+                cases hnp
+                exact ⟨alignFits_dvd hcond.2, ⟨i, (setCurPos_cur _ _).trans hcur⟩, k1, fun _ => k2, k3⟩
+            · cases h2'
+          · cases h1'
+        · exact hslow he
+    · exact halloc he
+  · -- downwards
+    rename_i hup
+    split at he
+    · rename_i hlast
+      split at he
+      · cases he
+      · rename_i c hcc
+        obtain ⟨i, hcur, hi⟩ := curChunk?_eq_some hcc
+        have hw := h.chunks i c hi
+        obtain ⟨add, h1, he⟩ := bind_eq_ok he
+        obtain ⟨newAddr, h2, he⟩ := bind_eq_ok he
+        split at he
+        · rename_i hge
+          obtain ⟨newEnd, h3, he⟩ := bind_eq_ok he
+          obtain ⟨s1, h4, he⟩ := bind_eq_ok he
+          cases he
+          have h1' := liftM_eq_ok h1
+          have h2' := liftM_eq_ok h2
+          have hpos := isLast_pos hlast hcur hi
+          obtain ⟨j, c2, hcur2, hi2, hb1, hb2, hb3⟩ := hbc hlast
+          rw [hcur] at hcur2; cases hcur2
+          rw [hi] at hi2; cases hi2
+          have hm := h.minAlign
+          have hp2 : P2 (Rs.max newL.align s.minAlign) := by rw [rs_max_eq]; exact hL.p2.max hm.p2
+          have hlt : Rs.max newL.align s.minAlign < 2 ^ 64 := by
+            rw [rs_max_eq, Lemmas.Size.natmax]
+            have := hL.lt64; have := hm.lt64; omega
+          have hend := hw.end_lt64
+          have hple := hw.pos_le
+          have hsp := hw.start_pos
+          unfold Rs.sub at h1'
+          split at h1'
+          · cases h1'
+            have hpos' : blk.addr = c.pos := by simpa only [hup, Bool.false_eq_true, ↓reduceIte] using hpos
+            rw [lib_bump_down_eq hp2 hlt (by omega)] at h2'
+            cases h2'
+            have hle : Spec.downAlign (blk.addr - (newL.size - blk.size)) (Rs.max newL.align s.minAlign)
+                ≤ blk.addr - (newL.size - blk.size) := downAlign_le _ _
+            have hdvd : newL.align ∣ Spec.downAlign (blk.addr - (newL.size - blk.size)) (Rs.max newL.align s.minAlign) := by
+              rw [rs_max_eq]
+              exact Nat.dvd_trans (dvd_max_left hL.p2 hm.p2) (downAlign_dvd _ _)
+            -- the state after the copy
+            have ho := Mem.copyBytes_onlyData h4
+            have hgs := copyBytes_geom h4
+            have hl1 : Mem.LiveOK cfg s1 := hl.of_onlyData ho
+            have hd1 : Mem.ChunksDisjoint s1.chunks := (disjoint_iff s1).mp (hgs.shape.disjoint hd)
+            have hlive1 : s1.live = s.live := by rw [ho.1]
+            have hcur1 : s1.cur = s.cur := hgs.cur
+            obtain ⟨c', hi', hgeo⟩ := Mem.getElem?_geom ho.2 hi
+            have e1 : c'.base = c.base := congrArg (·.1) hgeo
+            have e2 : c'.size = c.size := congrArg (·.2.1) hgeo
+            have e3 : c'.pos = c.pos := congrArg (·.2.2.1) hgeo
+            have es : c'.contentStart cfg = c.contentStart cfg := contentStart_same e1
+            have ee : c'.contentEnd cfg = c.contentEnd cfg := contentEnd_same e1 e2
+            obtain ⟨k1, k2, k3⟩ := liveOK_regrow
+              (p := Spec.downAlign (blk.addr - (newL.size - blk.size)) (Rs.max newL.align s.minAlign)) (size := newL.size)
+              (np := Spec.downAlign (blk.addr - (newL.size - blk.size)) (Rs.max newL.align s.minAlign)) hl1 hd1
+              (hlive1 ▸ hb) (hcur1.trans hcur) hi'
+              (by simp only [hup, Bool.false_eq_true, ↓reduceIte]; rw [e3]; exact hpos')
+              (by simp only [hup, Bool.false_eq_true, ↓reduceIte]; rw [es, ee]; omega)
+            refine ⟨(Stable.of_onlyData ho).trans (Stable.setCurPos _ _),
+              Or.inl ((setCurPos_cur _ _).trans hcur1), ?_, (fun e he' => by cases he'), ?_⟩
+            · intro hu
+              rw [setCurPos_cur, hcur1, hcur] at hu; cases hu
+            · intro np hnp
+              cases hnp
+              exact ⟨hdvd, ⟨i, (setCurPos_cur _ _).trans (hcur1.trans hcur)⟩, k1, fun _ => k2, k3⟩
+          · rename_i hn; exact absurd hsz hn
+        · exact hslow he
+    · exact halloc he
+
+/-! ## the `.grow` operation -/
+
+/-- a refused `grow`: nothing happens to the ghost state -/
+theorem inv_grow_error {g : GState} (h : Inv cfg g) (hr : RespsOK cfg g.s) (hf : RespsFresh g.s) {blk : Block}
+    (hb : blk ∈ g.s.live) {L : Layout} (hL : L.Valid) (hp : g.s.prepared = none) {s1 : State} {e : AErr}
+    (hgrow : grow cfg g.s blk.addr blk.size L = .ok (s1, .error e)) : Inv cfg ⟨s1, g.marks⟩ := by
+  have hbc := h.blockInCur' hb
+  obtain ⟨g1, g2, g3⟩ := C10.grow_inv h.cfgOK h.geom hr hL hbc hgrow
+  obtain ⟨d1, d2⟩ := C10.trace_disjoint (C10.grow_trace h.cfgOK h.geom hr hL hbc hgrow) h.disj hf
+  have gp := grow_hist h.cfgOK h.geom hr h.disj hf h.live hb hL hbc hgrow
+  exact inv_of_stable h hp g1 d1 g3 gp.stable gp.unalloc gp.curKind (gp.err e rfl)
+
+/-- a successful `grow`, optionally followed by zeroing a range, then the ghost reallocation `blk ↦ [np, np+L.size)` -/
+theorem inv_grow_success {g : GState} (h : Inv cfg g) (hr : RespsOK cfg g.s) (hf : RespsFresh g.s) {blk : Block}
+    (hb : blk ∈ g.s.live) {L : Layout} (hL : L.Valid) (hp : g.s.prepared = none) {s1 s2 : State} {np : Nat}
+    (hgrow : grow cfg g.s blk.addr blk.size L = .ok (s1, .ok np)) {z : Bool} {p n init : Nat}
+    (hz : (if z then zeroRange cfg s1 p n else pure s1) = .ok s2) :
+    Inv cfg ⟨(addBlock (removeBlock s2 blk.id) np L.size L.align init).1, g.marks⟩ := by
+  have hbc := h.blockInCur' hb
+  obtain ⟨g1, g2, g3⟩ := C10.grow_inv h.cfgOK h.geom hr hL hbc hgrow
+  obtain ⟨d1, d2⟩ := C10.trace_disjoint (C10.grow_trace h.cfgOK h.geom hr hL hbc hgrow) h.disj hf
+  have gp := grow_hist h.cfgOK h.geom hr h.disj hf h.live hb hL hbc hgrow
+  obtain ⟨a1, ⟨j, hj⟩, a3, a4, a5⟩ := gp.ok np rfl
+  obtain ⟨ho, hgz, hsh⟩ := zero_or_id_onlyData hz
+  have e := ho.1
+  have hcur2 : s2.cur = s1.cur := by rw [e]
+  have hma2 : s2.minAlign = s1.minAlign := by rw [e]
+  have hlive2 : s2.live = s1.live := by rw [e]
+  have hl2 : Mem.LiveOK cfg (removeBlock s2 blk.id) :=
+    Mem.LiveOK.of_geom (s := removeBlock s1 blk.id) (s' := removeBlock s2 blk.id) ho.2 hcur2
+      (by show s2.live.filter _ = s1.live.filter _; rw [hlive2]) a3
+  have hI : Inv cfg ⟨removeBlock s2 blk.id, g.marks⟩ :=
+    inv_of_stable_drop h blk.id hp (hgz g1) (hsh.disjoint d1) (hma2.trans g3)
+      (gp.stable.trans (Stable.of_onlyData ho))
+      (fun hu => by rw [hcur2, hj] at hu; cases hu) (Or.inr ⟨j, hcur2.trans hj⟩) hl2
+  have hl3 : Mem.LiveOK cfg (addBlock (removeBlock s2 blk.id) np L.size L.align init).1 := by
+    refine liveOK_addBlock_of hl2 init a1 ?_ ?_
+    · intro hs
+      exact Mem.Placed.of_geom (s := s1) (s' := removeBlock s2 blk.id) ho.2 hcur2 (a4 hs)
+    · intro x hx
+      apply a5 x
+      show x ∈ s1.live.filter _
+      rw [← hlive2]; exact hx
+  exact Inv.withBlock (g := ⟨removeBlock s2 blk.id, g.marks⟩) hI hl3 ⟨j, hcur2.trans hj⟩ hL.1
+
+theorem inv_grow {g g' : GState} {out : Out} {b : Nat} {L : Layout} {z : Bool} {via : Via} (h : Inv cfg g)
+    (hr : RespsOK cfg g.s) (hf : RespsFresh g.s)
+    (hs : stepCore cfg g (.grow b L z via) = .ok (g', out)) : Inv cfg g' := by
+  unfold stepCore at hs
+  simp only [bind, Except.bind, pure, Except.pure] at hs
+  split at hs
+  · cases hs
+  · rename_i u hu
+    have hL := validLayout_valid hu
+    split at hs
+    · cases hs
+    · rename_i u2 hu2
+      have hp := noPrepared_ok hu2
+      split at hs
+      · cases hs
+      · rename_i blk hblk
+        obtain ⟨hb, hid⟩ := Mem.findBlock_ok hblk
+        subst hid
+        split at hs
+        · cases hs
+        · split at hs
+          · cases hs
+          · rename_i x hx
+            obtain ⟨s1, r1⟩ := x
+            cases r1 with
+            | error e =>
+              simp only at hs
+              cases hs
+              exact inv_grow_error h hr hf hb hL hp hx
+            | ok np =>
+              simp only at hs
+              cases z
+              · simp only [Bool.false_eq_true, ↓reduceIte] at hs
+                cases hs
+                exact inv_grow_success (z := false) (p := 0) (n := 0) h hr hf hb hL hp hx rfl
+              · simp only [↓reduceIte] at hs
+                split at hs
+                · cases hs
+                · rename_i s2 hs2
+                  cases hs
+                  exact inv_grow_success (z := true) h hr hf hb hL hp hx hs2
+
 end Arena.Hist
